@@ -59,6 +59,18 @@ def main():
                     "translator: the layout definitions regenerated from kv.py no longer equal the model's (tie theorem(s) %s fail)"
                     % ", ".join(mine), {"kind": "translation", "failed": tr["failed"]},
                     {k: v for k, v in tr["definitions"].items()}, "NostrRelay/Model/KV.lean, Model/MsgPack.lean")
+        if prop == "C16":
+            # the validators' decision logic, translated from the current source and proved equal to the model's (DESIGN.md §3.5)
+            from lib import translate_validators
+            tv = translate_validators.run(common.REPO, common.LEAN)
+            report.coverage["translation_tie"] = {
+                "source": "nostr_relay/validators.py", "status": tv["status"], "theorems": tv["theorems"], "failed": tv["failed"],
+                "unavailable": tv["unavailable"], "definitions": tv["definitions"]}
+            if tv["failed_names"]:
+                report.correspondence_break(
+                    "translator: the validators regenerated from validators.py no longer decide as the model does (tie theorem(s) %s fail)"
+                    % ", ".join(tv["failed_names"]), {"kind": "translation", "failed": tv["failed"]}, tv["definitions"],
+                    "NostrRelay/Model/Admission.lean")
         if args.replay:
             mod.replay(report, args.replay)
         else:
